@@ -240,6 +240,10 @@ func GenReq(t *rapid.T, idx int, o ReqOpts) (*wire.Req, *ReqInfo) {
 			// optional whitespace around a field value is SP or HTAB; it is not part of the value
 			v = rapid.SampledFrom([]string{"\t", " \t", "\t ", ""}).Draw(t, "owsBefore") + v + rapid.SampledFrom([]string{"\t", " \t ", "", "\t"}).Draw(t, "owsAfter")
 			info.TabOWS = true
+		} else if o.TabOWS && o.Fold && rapid.IntRange(0, 9).Draw(t, "foldedLength") == 0 {
+			// the value on a continuation line of its own ("Content-Length:" CRLF SP "3"): a folded framing field
+			v = rapid.SampledFrom([]string{"\r\n ", "\r\n\t", "\r\n  "}).Draw(t, "foldSep") + v
+			info.Folded = true
 		}
 		framingLines = append(framingLines, wire.KV{K: name, V: v})
 		if rapid.IntRange(0, 9).Draw(t, "clDup") == 0 {
@@ -302,7 +306,18 @@ func GenReq(t *rapid.T, idx int, o ReqOpts) (*wire.Req, *ReqInfo) {
 				}
 				r.Trailers = append(r.Trailers, wire.KV{K: nm, V: v})
 			}
-			framingLines = append(framingLines, wire.KV{K: mixCase(t, "Trailer"), V: strings.Join(names, rapid.SampledFrom([]string{",", ", "}).Draw(t, "trailerSep"))})
+			seps := []string{",", ", "}
+			if o.TabOWS {
+				seps = append(seps, ",\t", " ,\t ") // optional whitespace around list elements is SP or HTAB
+			}
+			if o.TabOWS && len(names) >= 2 && rapid.IntRange(0, 3).Draw(t, "trailerTwoLines") == 0 {
+				// a list field may be spread over several lines; they combine
+				k := rapid.IntRange(1, len(names)-1).Draw(t, "trailerSplit")
+				framingLines = append(framingLines, wire.KV{K: mixCase(t, "Trailer"), V: strings.Join(names[:k], rapid.SampledFrom(seps).Draw(t, "trailerSep"))})
+				framingLines = append(framingLines, wire.KV{K: mixCase(t, "Trailer"), V: strings.Join(names[k:], rapid.SampledFrom(seps).Draw(t, "trailerSep"))})
+			} else {
+				framingLines = append(framingLines, wire.KV{K: mixCase(t, "Trailer"), V: strings.Join(names, rapid.SampledFrom(seps).Draw(t, "trailerSep"))})
+			}
 			info.Trailers = true
 		}
 	}
